@@ -87,7 +87,8 @@ class SchedRun:
         else:
             s.out = net.sink()
         if cfg.get("twin"):
-            t2 = build(env, cfg)
+            # same class ids, other weights / priorities, declared in the opposite order
+            t2 = build(env, dict(cfg, table=[[k, w * 3 + 1] for k, w in reversed(cfg["table"])]))
             t2.out = type("Null", (), {"put": staticmethod(lambda p: None)})()
             holder["twin"] = t2
         self.mon = None
